@@ -226,7 +226,7 @@ def positive_random(draw):
 
 @st.composite
 def negative_cases(draw):
-    kind = draw(st.sampled_from(["raw", "mut-b58", "mut-segwit", "unknown-b58-version", "pk-wrong-len-for-prefix", "pk-off-curve", "pk-x>=p", "pk-hybrid", "pk-bad-prefix", "b58-no-checksum", "segwit-wrong-hrp", "segwit-bad-proglen", "segwit-bad-proglen", "segwit-wrong-const", "segwit-bad-version", "segwit-nonzero-pad", "pk-coord-aliased", "b58-no-version", "segwit-mixed-case"]))
+    kind = draw(st.sampled_from(["script-shaped", "key-as-text", "raw", "mut-b58", "mut-segwit", "unknown-b58-version", "pk-wrong-len-for-prefix", "pk-off-curve", "pk-x>=p", "pk-hybrid", "pk-bad-prefix", "b58-no-checksum", "segwit-wrong-hrp", "segwit-bad-proglen", "segwit-bad-proglen", "segwit-wrong-const", "segwit-bad-version", "segwit-nonzero-pad", "pk-coord-aliased", "b58-no-version", "segwit-mixed-case"]))
     if kind == "segwit-mixed-case":
         # a valid address with the case rule broken: whole HRP in one case and whole data part in the other, or one letter flipped
         v = draw(st.integers(0, 16))
@@ -244,6 +244,24 @@ def negative_cases(draw):
             i = letters[draw(st.integers(0, len(letters) - 1))]
             a = a[:i] + a[i : i + 1].upper() + a[i + 1 :]
         return {"kind": kind, "data": a.hex()}
+    if kind == "script-shaped":
+        # bytes that already ARE an output script (what scriptpubkey() returns for a key or an address, also witness
+        # programs of any version and length): neither a public key nor an address, so there is nothing to map them to
+        h20, h32 = draw(st.binary(min_size=20, max_size=20)), draw(st.binary(min_size=32, max_size=32))
+        pk = ec.sec1_encode(ec.pub(draw(gen.scalars_valid())), draw(st.booleans()))
+        n = draw(st.integers(2, 40))
+        prog = (h32 + h20)[:n]
+        data = draw(st.sampled_from([
+            bytes.fromhex("76a914") + h20 + bytes.fromhex("88ac"), bytes.fromhex("a914") + h20 + b"\x87", b"\x00\x14" + h20, b"\x00\x20" + h32, b"\x51\x20" + h32,
+            bytes([len(pk)]) + pk + b"\xac", bytes([draw(st.sampled_from([0x00, 0x51, 0x52, 0x60])), n]) + prog, bytes.fromhex("6a24aa21a9ed") + h32,
+        ]))
+        return {"kind": kind, "data": data.hex()}
+    if kind == "key-as-text":
+        # the hexadecimal TEXT of a valid public key (66 or 130 characters, either case): text, not a SEC1 key
+        pk = ec.sec1_encode(ec.pub(draw(gen.scalars_valid())), draw(st.booleans()))
+        t = pk.hex()
+        t = draw(st.sampled_from([t, t.upper(), "0x" + t, t + "\n"]))
+        return {"kind": kind, "data": t.encode().hex()}
     if kind == "b58-no-version":
         # checksum-valid Base58Check strings too short to hold a known version byte: the empty payload (b"3QJmnh"),
         # or a single unknown version byte with nothing behind it
@@ -365,7 +383,7 @@ def _targets(tier):
                required=["nt:key-bytes-with-whitespace-or-nul-at-an-end", "nt:key-coordinate-in-n..p"]),
         Target("negative", check_negative, strategy=lambda tier: negative_cases(), budget={"quick": 5000, "thorough": 100000},
                required=["nt:pk-wrong-len-for-prefix", "nt:unknown-b58-version", "nt:mut-segwit", "nt:mut-b58", "nt:pk-hybrid", "expect-refuse",
-                         "nt:segwit-bad-proglen", "nt:segwit-wrong-const", "nt:segwit-bad-version", "nt:segwit-nonzero-pad", "nt:pk-coord-aliased", "nt:b58-no-version", "nt:segwit-mixed-case"]),
+                         "nt:segwit-bad-proglen", "nt:segwit-wrong-const", "nt:segwit-bad-version", "nt:segwit-nonzero-pad", "nt:pk-coord-aliased", "nt:b58-no-version", "nt:segwit-mixed-case", "nt:script-shaped", "nt:key-as-text"]),
     ]
 
 
